@@ -629,6 +629,9 @@ def c18_prop():
         H(MPMC, "hist_c18_c2_tr_p0_n4", "hold", replay=("mpmc_hist_noop", mpmc_cfg(2, "tr", 0)), mask=P(18), est_s=300, est_gb=4, bounds="E-HIST mpmc capacity 2", **st),
         H(LIFE, "life_c18_oneshot_bc_n3", "hold", replay=("life_oneshot_bc", 0), mask=P(18), est_s=300, est_gb=8, timeout=1500,
           bounds="shared oneshot-broadcast: handle clone/drop and polling after construction", **st),
+        H(MPMC, "clear_noalloc_c18", "hold", replay=("mpmc_clear_noalloc", 0), mask=P(18) | P(8), est_s=30, est_gb=2,
+          bounds="ChannelState::clear() (run by Drop of the last shared receiver) on a FixedHeapBuf channel with 0-2 buffered values, open or closed: "
+                 "every value dropped once, allocator never reached (function level)", **st),
         H(RING, "fixed_c18_c1_n3", "hold", replay=("ring_hist_fixed", 1), mask=P(18), est_s=20, bounds="FixedHeapBuf capacity 1: 3 push/pop operations after with_capacity() never reach the allocator", **st),
         H(RING, "fixed_c18_c2_n3", "hold", replay=("ring_hist_fixed", 2), mask=P(18), est_s=30, bounds="FixedHeapBuf capacity 2, 3 operations (fills the buffer completely)", **st),
         H(RING, "array_c18_c2_n4", "hold", replay=("ring_hist_array", 2), mask=P(18), est_s=20, bounds="ArrayBuf capacity 2, 4 operations", **st),
@@ -983,3 +986,4 @@ DECODERS["mpmc_zst_fixedheap"] = decode_mpmc_zst
 DECODERS["mpmc_zst_array"] = decode_mpmc_zst
 
 DECODERS["shared_stream_min"] = lambda cfg, script: ["shared channel(1): try_send(1)=%s, close()=%s; into_stream(); poll_next twice" % (bool(script[0] & 1) if script else "?", bool(script[1] & 1) if len(script) > 1 else "?")]
+DECODERS["mpmc_clear_noalloc"] = decode_raw
